@@ -56,6 +56,7 @@ LEVEL_TEXT = ('The run model (setup_layer, tear_down_unneeded, run_layer, the Ru
               'event-by-event with the real runner on every generated world; c01_ok (active set = test stack at every test phase, '
               'setUp only when absent and bases present, tearDown only when no derived layer is active, everything torn down at '
               'process end, nothing after NotImplementedError) is evaluated on the real traces of every process. '
-              'Theorems proved so far are listed in the evidence (P_C01.v).')
+              'Theorems proved so far are listed in the evidence (P_C01.v).'
+              " Whole-run theorems (RunInv.v): for every world, option set and process of Run.run the discipline holds on the model's full bookkeeping.")
 LEVEL_NOTE = ('Layers without a hook are invisible to the trace: predicates range over layers having both setUp and tearDown. '
               'OS process freshness is assumed.')
